@@ -200,7 +200,13 @@ pub fn gen(rng: &mut Rng, n: usize, _thorough: bool, stats: &mut Stats) -> Vec<S
 				10 => {
 					let t = gen_ticks(rng);
 					if rng.chance(1, 2) {
-						format!("ct.addu {} {} {}", t, o64(gen_frac(rng)), rng.below(1 << 30))
+						// whole-tick addends: small, beyond 2^53 (where an f64 no longer holds every integer), huge
+						let n = match rng.below(4) {
+							0 | 1 => rng.below(1 << 30),
+							2 => (1u64 << 52) + rng.below(1 << 53),
+							_ => rng.below(1 << 62),
+						};
+						format!("ct.addu {} {} {}", t, o64(gen_frac(rng)), n)
 					} else {
 						format!("ct.subu {} {} {}", t, o64(gen_frac(rng)), rng.below(t + 1))
 					}
@@ -351,6 +357,7 @@ fn exec(tok: &[&str], out: &mut Out) {
 				ClockSpeed::TicksPerSecond(v) => format!("tps {}", h64(v)),
 				ClockSpeed::TicksPerMinute(v) => format!("tpm {}", h64(v)),
 			});
+			oracle_cslerp(tok, r, out);
 		}
 		"ct.from" => {
 			let id = ct(0, 0.0).clock;
@@ -385,6 +392,13 @@ fn exec(tok: &[&str], out: &mut Out) {
 		"ct.addu" => {
 			let r = ct(pu(tok[1]), p64(tok[2])) + pu(tok[3]);
 			out.put(format!("{} {}", r.ticks, h64(r.fraction)));
+			// C19 "clock-time arithmetic … exact where promised": adding a whole number of ticks adds
+			// them to the tick count in exact integer arithmetic and leaves the fraction alone, also
+			// beyond 2^53 (no detour through f64). The generator keeps ticks + n below 2^64.
+			let (t, n) = (pu(tok[1]) as u128, pu(tok[3]) as u128);
+			if r.ticks as u128 != t + n || r.fraction.to_bits() != p64(tok[2]).to_bits() {
+				out.oracle_fail("clocktime_add_whole_ticks", tok.join(" "));
+			}
 		}
 		"ct.subu" => {
 			let r = ct(pu(tok[1]), p64(tok[2])) - pu(tok[3]);
@@ -462,6 +476,49 @@ fn exec(tok: &[&str], out: &mut Out) {
 			out.put(h64(kira::verif_hooks::tween_value(&tw, p64(tok[3]))));
 		}
 		_ => panic!("units: unknown op {}", tok[0]),
+	}
+}
+
+/// C19 "the three clock-speed units convert consistently" applied to `ClockSpeed::interpolate(a, b, t)`:
+/// the result is expressed in b's unit and is the straight line from a (converted to b's unit by the
+/// documented unit relations: ticks/second = 1 / (seconds/tick), ticks/minute = 60 ticks/second) to b.
+/// Expected value computed here from those relations, not from the accessors under test. Endpoints:
+/// with a and b in the same unit t = 0 gives a bit-exactly (a + (b - a)·0 has no rounding), t = 1 gives b to
+/// rounding. Tolerance: three roundings (conversion, subtraction/product, sum), each ≤ 2^-53 relative to
+/// max(|a'|, |b|): 1e-12 is > 4000 of them (the real-number identity is C19_clock_speed_consistent + linearity
+/// of the f64 lerp, C06 closed form at ease = id).
+fn oracle_cslerp(tok: &[&str], r: ClockSpeed, out: &mut Out) {
+	let (ka, va, kb, vb, t) = (tok[1], p64(tok[2]), tok[3], p64(tok[4]), p64(tok[5]));
+	if !(va > 0.0 && vb > 0.0 && va.is_finite() && vb.is_finite() && (0.0..=1.0).contains(&t)) {
+		return;
+	}
+	// a in ticks per second, then in b's unit
+	let tps = match ka {
+		"spt" => 1.0 / va,
+		"tps" => va,
+		_ => va / 60.0,
+	};
+	let a_in_b = if ka == kb {
+		va
+	} else {
+		match kb {
+			"spt" => 1.0 / tps,
+			"tps" => tps,
+			_ => tps * 60.0,
+		}
+	};
+	let (kr, vr) = match r {
+		ClockSpeed::SecondsPerTick(v) => ("spt", v),
+		ClockSpeed::TicksPerSecond(v) => ("tps", v),
+		ClockSpeed::TicksPerMinute(v) => ("tpm", v),
+	};
+	let want = a_in_b + (vb - a_in_b) * t;
+	let scale = a_in_b.abs().max(vb.abs());
+	if kr != kb || !((vr - want).abs() <= 1e-12 * scale) {
+		out.oracle_fail("clock_speed_lerp_linear_in_unit", tok.join(" "));
+	}
+	if ka == kb && t == 0.0 && vr.to_bits() != va.to_bits() {
+		out.oracle_fail("clock_speed_lerp_start_exact", tok.join(" "));
 	}
 }
 
